@@ -159,8 +159,8 @@ let replay_file path =
          (* a capacity value that disagrees while two goroutines of the instance act at the same instant
             (timer and loop) is a read of a half-updated table in either order: ambiguous, not a verdict *)
          let busy = List.length (List.filter (fun ln -> ln.t = t && (match ln.w with
-             | ["ev"; ("released" | "allocated"); _] | "act" :: _ -> true | _ -> false)) h.lines) in
-         if busy >= 2 && (kind = "value:recalc" || kind = "unexpected:ev-capacity" || kind = "value:expire" || kind = "sample:capacity")
+             | ["ev"; "released"; _] | ["lm"; "lease"; _] | "act" :: _ -> true | _ -> false)) h.lines) in
+         if busy >= 2 && kind <> "sample:maxcapacity"
          then Printf.printf "FUEL %s ambiguous-instant t=%d\n%!" path t
          else Printf.printf "REJECT %s seg=0 t=%d kind=%s :: %s\n%!" path t kind detail)
     end
